@@ -236,3 +236,45 @@ func b2bMethod(name string, recv value, args []value) (value, bool) {
 	}
 	return nil, false
 }
+
+// ---- mast.NodeCache (an LRU/ARC cache from hashicorp/golang-lru) ----
+// Modelled as an unbounded map: nothing is ever evicted (scenarios are small).
+type cacheState struct{ m map[string]value }
+
+var cacheType = types.NewNamed(types.NewTypeName(0, nil, "verifNodeCache", nil), types.NewStruct(nil, nil), nil)
+
+func cacheKeyOf(v value) string {
+	if i, ok := v.(iface); ok {
+		v = i.v
+	}
+	s, ok := v.(string)
+	if !ok {
+		panic(engineLimit{"node cache key is not a concrete string"})
+	}
+	return s
+}
+
+func cacheMethod(c *cacheState, name string, args []value) value {
+	switch name {
+	case "Add":
+		c.m[cacheKeyOf(args[0])] = args[1]
+		return nil
+	case "Contains":
+		_, ok := c.m[cacheKeyOf(args[0])]
+		return ok
+	case "Get":
+		v, ok := c.m[cacheKeyOf(args[0])]
+		if !ok {
+			return tuple{iface{}, false}
+		}
+		return tuple{v, true}
+	}
+	panic(engineLimit{"node cache method " + name})
+}
+
+func init() {
+	Hooks["github.com/jrhy/mast.NewNodeCache"] = func(fr *frame, a []value) value {
+		var cell value = &cacheState{m: map[string]value{}}
+		return iface{cacheType, &cell}
+	}
+}
